@@ -35,13 +35,14 @@ def run(ctx):
                         vals = [corpus.rand_value(rng, a["ty"]) for a in m["args"]]
                         fields = [(a["name"], corpus.jtext(v)) for a, v in zip(m["args"], vals)]
                         addr = rng.choice(["target", "cosmwasm1abc", "a b"]).replace(" ", "_")
-                        amount = rng.choice([0, 5, 10 ** 15])
+                        amount = rng.choice([0, 5, 10 ** 15, "5utok+0refund", "0zero", "1a+2b+0c"])
                         sender = rng.choice(["alice", "bob"])
                         height = rng.choice([3, 77])
-                        op = "xh %d %s %s %s %d %s %s %d sd %s" % (idx, via, m["name"], hx(addr), amount, fail, sender, height, corpus.jtext(vals))
+                        op = "xh %d %s %s %s %s %s %s %d sd %s" % (idx, via, m["name"], hx(addr), amount, fail, sender, height, corpus.jtext(vals))
                         doc = l2.msg_doc("exec", m, fields)
-                        want = "execute addr=%s funds=%s body=%s => %s" % (addr, "" if amount == 0 else "%dutok" % amount, doc,
-                                                                           C02.expected(p, "exec", pid_, m, fields, fail, sender, amount, height, "sd"))
+                        shown = amount if isinstance(amount, str) else ("" if amount == 0 else "%dutok" % amount)
+                        want = "execute addr=%s funds=%s body=%s => %s" % (addr, shown, doc,
+                                                                           C02.expected(p, "exec", pid_, m, fields, fail, sender, 0 if isinstance(amount, str) else amount, height, "sd"))
                         lst.append(op)
                         expect[(p["id"], op)] = want
         for idx, pid_, label, ms in l2.parts_of(p, "query"):
